@@ -8,7 +8,9 @@
 //   run  <kind mep|team|ga|de> <strat std|alps|de|dealps> <mode step|whole|search> <seed>
 //        <individuals> <min_individuals> <layers> <tournament> <mate_zone> <elitism 0|1>
 //        <age_gap> <p_same> <p_cross> <p_mutation> <brood> <generations> <cache 0|1>
-//        <eval h|v|r> <evalmod> <shake_every> [<max_stuck_time>]
+//        <eval h|v|r> <evalmod> <shake_every> [<max_stuck_time> [<shake at generation 0: 0|1>]]
+//   mode sel: an ALPS population with <layers> layers of UNEQUAL sizes (real add_layer / set_allowed /
+//        pop_from_layer), then <generations> * 50 calls of selection.run() from that fixed state
 //   tune <class search|ga|de|src> <strat std|alps|de> <validator asis|holdout|dss> <rows>
 //        code_length patch_length elitism(-1|0|1) p_mutation p_cross brood layers individuals
 //        min_individuals tournament mate_zone generations max_stuck_time(-1=unset) dss(-1) validation(-1)
@@ -224,7 +226,13 @@ struct config
   unsigned brood, generations;
   int cache;
   char eval;
-  unsigned evalmod, shake_every, max_stuck;
+  unsigned evalmod, shake_every, max_stuck, shake0;
+
+  // does the user's shake function change the data before generation `g`?
+  bool shakes(unsigned g) const
+  {
+    return (shake0 && g == 0) || (shake_every && g && g % shake_every == 0);
+  }
 };
 
 void apply(const config &c, environment &env)
@@ -306,10 +314,12 @@ std::string describe_selection(const std::string &strat, const population<T> &po
     std::size_t k(0);
     const unsigned layer(static_cast<unsigned>(g_draws[k++].v));
     std::vector<std::pair<int, unsigned>> pk;
+    std::string bounds;
     while (k < g_draws.size())
     {
       int same(1);
       if (g_draws[k].kind == 'b') same = g_draws[k++].v != 0 ? 1 : 0;
+      bounds += " " + ull(g_draws[k].hi);
       pk.push_back({same, static_cast<unsigned>(g_draws[k++].v)});
     }
     s = "SA " + std::to_string(layer);
@@ -318,6 +328,8 @@ std::string describe_selection(const std::string &strat, const population<T> &po
     s += " " + std::to_string(pk.size() >= 2 ? pk.size() - 2 : 0);
     for (std::size_t i(2); i < pk.size(); ++i)
       s += " " + std::to_string(pk[i].first) + " " + std::to_string(pk[i].second);
+    // the upper bounds the index draws were made with (random::sup(n)), in order
+    s += " SUP " + std::to_string(pk.size()) + bounds;
   }
   return s;
 }
@@ -390,7 +402,7 @@ void run_step(const config &c)
       if (stop) break;
     }
 
-    if (c.shake_every && sum.gen && sum.gen % c.shake_every == 0)
+    if (c.shakes(sum.gen))
     {
       ++g_salt;
       eva.clear();
@@ -425,6 +437,57 @@ void run_step(const config &c)
     es.after_generation();
     g_out << " GEN " << s_az << " " << describe_int_draws(4096) << " " << show_pop(pop, eva) << " "
         << show_sum(sum, eva, sum.gen + 1);
+  }
+  g_out << " END";
+}
+
+// ---------------------------------------------------------------- sel mode
+// Many ALPS selections from one population whose layers have different sizes
+// (what after_generation leaves behind when some layers have converged).
+template<class T, template<class> class ES>
+void run_sel(const config &c)
+{
+  problem_of<T> pr;
+  apply(c, pr.prob.env);
+  auto eva_ptr(make_eva<T>(c.eval, c.evalmod, c.cache));
+  evaluator<T> &eva(*eva_ptr);
+
+  random::seed(c.seed);
+  g_salt = 0;
+
+  population<T> pop(pr.prob);
+  summary<T> sum;
+  ES<T> es(pop, eva, &sum);
+  sum.clear();
+  sum.best.solution = pop[{0, 0}];
+  sum.best.score.fitness = eva(sum.best.solution);
+
+  // layers (newest first), ages growing with the layer
+  for (unsigned l(1); l < c.layers; ++l)
+  {
+    for (unsigned k(0); k <= c.age_gap; ++k) pop.inc_age();
+    pop.add_layer();
+  }
+  // unequal sizes: a private generator, so that the library's stream is not disturbed
+  std::uint64_t x(0x9e3779b97f4a7c15ull ^ c.seed);
+  auto next([&x]() { x ^= x << 13; x ^= x >> 7; x ^= x << 17; return x; });
+  for (unsigned l(0); l < pop.layers(); ++l)
+  {
+    const unsigned lo(std::max(1u, std::min(c.min_individuals, c.individuals)));
+    const unsigned target(lo + static_cast<unsigned>(next() % (c.individuals - lo + 1)));
+    if (next() % 2)
+      pop.set_allowed(l, target);                   // as basic_alps_es::after_generation does
+    else
+      while (pop.individuals(l) > target) pop.pop_from_layer(l);
+  }
+
+  g_out << "INITSEL CB " << show_pop(pop, eva) << " " << show_sum(sum, eva, 0);
+  const unsigned n(50 * std::max(1u, c.generations));
+  for (unsigned k(0); k < n; ++k)
+  {
+    g_draws.clear();
+    const auto parents(es.selection.run());
+    g_out << " SEL " << describe_selection<T>("alps", pop, parents) << " PAR " << show_coords<T>(parents);
   }
   g_out << " END";
 }
@@ -559,7 +622,7 @@ void run_whole(const config &c, bool traced)
 
   auto shake([&](unsigned g)
              {
-               if (c.shake_every && g && g % c.shake_every == 0)
+               if (c.shakes(g))
                {
                  ++g_salt;
                  eva.clear();
@@ -727,6 +790,7 @@ config parse_run(const std::vector<std::string> &w)
   c.shake_every = std::stoul(w.at(i++));
   c.max_stuck = i < w.size() ? static_cast<unsigned>(std::stoul(w.at(i++)))
                              : std::numeric_limits<unsigned>::max();
+  c.shake0 = i < w.size() ? static_cast<unsigned>(std::stoul(w.at(i++))) : 0;
   return c;
 }
 
@@ -734,6 +798,7 @@ template<class T, template<class> class ES, template<class> class TES>
 void dispatch_mode(const config &c, bool traceable)
 {
   if (c.mode == "step") run_step<T, ES>(c);
+  else if (c.mode == "sel") run_sel<T, ES>(c);
   else if (c.mode == "search") run_search<T, ES>(c);
   else if (traceable) run_whole<T, TES>(c, true);
   else run_whole<T, ES>(c, false);
